@@ -405,7 +405,7 @@ class Models(object):
             ch_best = f.chi_squared(source.valid, residual, log_error, weight, model)
 
             # Remove extended objects
-            if type(self.extended) == np.ndarray:
+            if isinstance(self.extended, np.ndarray):
                 # Only points that constrain the fit count: not the ones that
                 # are shown but not fitted (valid = 9), nor limits with zero
                 # confidence
